@@ -242,10 +242,6 @@ pub assume_specification [std::string::String::from_utf8_unchecked] (b: Vec<u8>)
 
 // facade accessors used as guards by the conversions (one-line delegations to the RiRefImpl methods proved for
 // C02; the delegation itself is outside Verus - bounded Kani facade harnesses of C02 compare them). ASSUMED.
-pub assume_specification [crate::uri::UriRef::scheme] (s: &crate::uri::UriRef) -> (r: Option<&crate::uri::Scheme>)
-    ensures r is Some <==> x_has_sch(bytes_of(s)), ref_shape(bytes_of(s)) ==> opt_text(r) == r_scheme(bytes_of(s));
-pub assume_specification [crate::iri::IriRef::scheme] (s: &crate::iri::IriRef) -> (r: Option<&crate::uri::Scheme>)
-    ensures r is Some <==> x_has_sch(bytes_of(s)), ref_shape(bytes_of(s)) ==> opt_text(r) == r_scheme(bytes_of(s));
 // generated Deref of the owned types to the borrowed ones (returns the same text). TRUSTED.
 pub assume_specification [<crate::uri::UriRefBuf as std::ops::Deref>::deref] (s: &crate::uri::UriRefBuf) -> (r: &<crate::uri::UriRefBuf as std::ops::Deref>::Target)
     ensures bytes_of(r) == bytes_of(s);
